@@ -146,6 +146,8 @@ type c15Collect struct {
 	sameHost bool
 	// sameSP: all clients are users' browsers of one service provider and one user account (session 0's)
 	sameSP bool
+	// sharedReqIDs: the AuthnRequests of all sessions carry the same message IDs (IDs are chosen by each provider on its own)
+	sharedReqIDs bool
 }
 
 func (cc *c15Collect) add(v *ev.Violation) {
@@ -240,6 +242,8 @@ func c15ClientOpt(w *world.World, spec world.Spec, i int, ops []string, yield in
 		relay := fmt.Sprintf("rs-%s-%d", tk, k)
 		if cc.sameSP {
 			reqID, relay = fmt.Sprintf("_req%s-c%d-%d", tk, i, k), fmt.Sprintf("rs-%s-c%d-%d", tk, i, k)
+		} else if cc.sharedReqIDs {
+			reqID = fmt.Sprintf("_id-chosen-by-several-providers-%d", k)
 		}
 		switch op {
 		case "sso", "flow-post", "flow-redirect":
